@@ -21,7 +21,11 @@ func init() {
 		Rule:   "every civil day in the year set at a time of day that rotates through the 26 slot edges by day number (quick: the years of the quick set at one rotating time; thorough: the years of the quick set at one rotating time and at every 5th slot edge, plus a light pass over all other days of years 1..9998 at one rotating time that visits the four principal objects Solar, Lunar, EightChar (sect alternating) and LunarTime only — the full graph on every day is about 100 CPU-hours, measured, and is not claimed): the object graph {Solar, Lunar, EightChar x sect, Yun x gender x sect, all DaYun, LiuNian/XiaoYun of every period (first, last and a rotating entry; entries 0,1 of the first two), LiuYue of the first year of the first two periods and of a rotating one, LunarTime + GetTimes, NineStars, Tao, Foto, festivals, LunarYear, LunarMonth, JieQi prev/next/current, Fu, ShuJiu, Holiday, SolarWeek x start 0..6, SolarMonth/Season/HalfYear/Year}; every exported zero-argument method found by reflection is called; oracle: no panic, index ranges, vocabulary membership, non-empty strings except a fixed optional list, no duplicate list entries. non-trivial = method calls on objects that only exist conditionally (Fu, ShuJiu, Holiday, current JieQi, festivals) or at 23:xx",
 		Assume: []string{"range/vocabulary rules are keyed by accessor-name suffix (GanIndex 0..9, ZhiIndex 0..11, ...InGanZhi in JIA_ZI, ...ShengXiao in SHENG_XIAO, Position* in POSITION_DESC keys, ...)", "optional strings (may be empty): term name of a day without a term, month foetus god in leap months, pillar/xun of great-fortune period 0, NineStar.GetBaMenInQiMen for the centre star, festival remarks/results"},
 		Shards: func(tier string, seed int64) []Shard {
-			return append(narrowShards(tier, seed), Shard{Kind: "tables", Tier: tier, Seed: seed}, Shard{Kind: "yun-gap", Ranges: [][2]int{{1571, 1573}}, Tier: tier, Seed: seed}, Shard{Kind: "yun-gap", Ranges: [][2]int{{1574, 1576}}, Tier: tier, Seed: seed}, Shard{Kind: "yun-gap", Ranges: [][2]int{{1577, 1579}}, Tier: tier, Seed: seed}, Shard{Kind: "yun-gap", Ranges: [][2]int{{1580, 1582}}, Tier: tier, Seed: seed})
+			ys := narrowShards(tier, seed)
+			if tier == "thorough" {
+				ys = weightedYearShards(tier, seed, 9998, 50, 160)
+			}
+			return append(ys, Shard{Kind: "tables", Tier: tier, Seed: seed}, Shard{Kind: "yun-gap", Ranges: [][2]int{{1571, 1573}}, Tier: tier, Seed: seed}, Shard{Kind: "yun-gap", Ranges: [][2]int{{1574, 1576}}, Tier: tier, Seed: seed}, Shard{Kind: "yun-gap", Ranges: [][2]int{{1577, 1579}}, Tier: tier, Seed: seed}, Shard{Kind: "yun-gap", Ranges: [][2]int{{1580, 1582}}, Tier: tier, Seed: seed})
 		},
 		Run:           runC08,
 		MinNontrivial: 100,
